@@ -54,3 +54,8 @@ claim("C05", "exploration", "Hypothesis-generated schedules (start delays, reply
       "history must show no foreign transmission inside any exchange (including pending extensions and retries), only own replies returned, progress after cancellation/failure. "
       "Exploration: arrival orders are generated, not enumerated.",
       "Only asyncio-task interleavings exist (single-threaded client); the virtual clock makes each schedule deterministic.")
+claim("C07", "exploration", "Hypothesis-generated client programs x reactive gateway scripts x stream split points, executed on the real HSFZConnection over in-memory streams under virtual time; post-hoc reference demultiplexer on the recorded frame timeline",
+      "Generated frame sequences over the HSFZ gateway alphabet (acks with right/wrong echo and pair, data for this/another pair, alive checks, short frames, error/status words), injected relative to "
+      "the client's write/ack/read phases and cut at generated split points, are demultiplexed by the real code; a reference demultiplexer decides every operation (outcome, value, instant) from the "
+      "recorded delivery timeline; alive replies are checked for instant and content. Exploration over an unbounded sequence space.",
+      "The peer is modelled at the StreamReader boundary; status/unknown control words are an abstention; write payloads carry a running number so that stale duplicate acks cannot match.")
